@@ -16,7 +16,7 @@ var (
 	reText   = regexp.MustCompile(`^T\|`)
 	reTokPfx = regexp.MustCompile(`^(?:T\|[a-z0-9]+\|[0-9]+)+`)
 	reTok    = regexp.MustCompile(`T\|[a-z0-9]+\|[0-9]+`)
-	reDecTok = regexp.MustCompile(`\((b\d+)([pa])(\d+)(x*|!C|!A|!E)\)`)
+	reDecTok = regexp.MustCompile(`\((b\d+)([pa])(\d+)((?:x\x{0301}?|世)*|!C|!A|!E)\)`)
 )
 
 // parseFrame turns the bytes of one Write on the output into a frame event:
